@@ -171,13 +171,14 @@ def oracle(w, fails, case, tag, fresh_stationary=False):
         fails.append(Failure(key, "every block in the core or the pool is found under its current name", case,
                              observed={"not found": bmiss[:4]}, note=tag))
     # (ii) a lookup never returns something that is neither in the core nor in the pool (purged objects)
-    here_a = {id(a) for a in kids} | {id(a) for a in sfp}
-    here_b = {id(b) for a in kids for b in a} | {id(b) for a in sfp for b in a}
-    gone_a = [k for k, v in bn.items() if id(v) not in here_a]
-    gone_b = [k for k, v in bb.items() if id(v) not in here_b]
+    # (blueprint / load-queue assemblies are legitimately registered without being in the core, so "absent" means:
+    #  one of the assemblies this history purged, or a block such an assembly left with)
+    purged_a = {id(a) for a in w.purged}
+    purged_b = {id(b) for a in w.purged for b in a}
+    gone_a = [k for k, v in bn.items() if id(v) in purged_a]
+    gone_b = [k for k, v in bb.items() if id(v) in purged_b]
     if gone_a:
-        fails.append(Failure("purged-not-found", "assembliesByName never returns an assembly that is neither in the core "
-                             "nor in the pool", case, observed=gone_a[:4], note=tag))
+        fails.append(Failure("purged-not-found", "assembliesByName never returns a purged assembly", case, observed=gone_a[:4], note=tag))
     if gone_b:
         # derived form of the same excluded point: the key a renamed (exchanged stationary) block was registered
         # under before `renumber` is never deleted, so it still resolves to that block after its assembly is purged
